@@ -652,3 +652,138 @@ func init() {
 	registry["C18"].Meta.Rules["C18.14"] = "the stop signal ends the loop: in every select inside a loop, the arm that receives from a stop channel (a field or call named stop/done/quit/cancel) cannot reach the head of that loop again (break for return leaves only the select: the goroutine spins, its completion channel is never closed and the stop function waits for ever)"
 	registry["C18"].Rules = append(registry["C18"].Rules, func(c *Ctx, r *Result) { stopArmLeavesLoopRule(c, r, "C18.14", 2) })
 }
+
+// ---- consecutive elements do not overlap (C06.13) ----
+//
+// A loop that takes element i out of a buffer as X[i*S + c : i*S + c + W] reads W bytes every S bytes. S >= W: with S < W the
+// elements overlap (8-byte integers read every 4 bytes: right type and count, garbage values). S > W is a field inside a larger
+// record and is not constrained.
+func elementStrideRule(c *Ctx, r *Result, rule string, floor int) {
+	n := 0
+	for _, fn := range c.LibFuncs() {
+		if fn.Blocks == nil {
+			continue
+		}
+		var fb *FB
+		k := 0
+		instrs(fn, func(in ssa.Instruction) {
+			sl, ok := in.(*ssa.Slice)
+			if !ok || sl.Low == nil || sl.High == nil {
+				return
+			}
+			if fb == nil {
+				fb = c.FB(fn)
+			}
+			lo, hi := fb.lin(sl.Low), fb.lin(sl.High)
+			w := hi.add(lo, -1)
+			if !w.isConst() || w.C <= 0 {
+				return
+			}
+			// the low bound is S * (loop counter) + ...: find a header phi with a constant coefficient
+			var S int64
+			found := false
+			for sym, coef := range lo.T {
+				phi, isPhi := sym.(*ssa.Phi)
+				if !isPhi {
+					continue
+				}
+				isHdr := false
+				for _, p := range phi.Block().Preds {
+					if phi.Block().Dominates(p) {
+						isHdr = true
+					}
+				}
+				// a counter stepping by one
+				step1 := false
+				for i, p := range phi.Block().Preds {
+					if phi.Block().Dominates(p) {
+						if bo, isB := phi.Edges[i].(*ssa.BinOp); isB && bo.Op == token.ADD && bo.X == ssa.Value(phi) {
+							if one, isK := constInt(bo.Y); isK && one == 1 {
+								step1 = true
+							}
+						}
+					}
+				}
+				if isHdr && step1 && naturalLoop(phi.Block())[sl.Block()] {
+					S, found = coef, true
+				}
+			}
+			if !found || S <= 0 {
+				return
+			}
+			n++
+			k++
+			r.Check(S >= w.C, rule, fmt.Sprintf("%s#element-%d", c.Name(fn), k), c.InstrPos(sl), fmt.Sprintf("elements of %d bytes are taken every %d bytes", w.C, S))
+		})
+	}
+	if n < floor {
+		r.Shortfall(c, rule, fmt.Sprintf("%s: only %d strided element accesses found (expected >= %d)", rule, n, floor))
+	}
+}
+
+func init() {
+	registry["C06"].Meta.Rules["C06.13"] = "consecutive elements do not overlap: where a loop with a counter i takes X[i*S + c : i*S + c + W], S >= W (64-bit integer attribute arrays read with offset i*4 come back with the right type and length and garbage contents)"
+	registry["C06"].Rules = append(registry["C06"].Rules, func(c *Ctx, r *Result) { elementStrideRule(c, r, "C06.13", 8) })
+}
+
+func init() {
+	registry["C06"].Meta.Rules["C06.14"] = registry["C03"].Meta.Rules["C03.16"] + "; and no branch inside the entry loop leaves it through its normal exit (a break on the first soft link ends the listing there) (shared with C03.16)"
+	registry["C06"].Rules = append(registry["C06"].Rules, func(c *Ctx, r *Result) { listingCompleteRule(c, r, "C06.14") })
+
+	registry["C06"].Meta.Rules["C06.15"] = "a version 2 message header has its creation-index field exactly when the object header says so: the 6-byte message header is selected by bit 2 (0x04, attribute creation order tracked) of the object header flags - the format's constant, H5O_HDR_ATTR_CRT_ORDER_TRACKED - and by no other bit (bit 3 is 'indexed': files that track without indexing, such as torderattr.h5, would be parsed with 4-byte message headers and fail to open)"
+	registry["C06"].Rules = append(registry["C06"].Rules, func(c *Ctx, r *Result) {
+		fn := c.FnOpt("core.parseV2Header")
+		if fn == nil {
+			r.Shortfall(c, "C06.15", "C06.15: core.parseV2Header not found")
+			return
+		}
+		// the phi that is 4 or 6: its 6-edge lies behind flags & M != 0
+		n := 0
+		instrs(fn, func(in ssa.Instruction) {
+			phi, ok := in.(*ssa.Phi)
+			if !ok {
+				return
+			}
+			consts := map[int64]*ssa.BasicBlock{}
+			for i2, e := range phi.Edges {
+				if e == ssa.Value(phi) {
+					continue
+				}
+				k, isK := constInt(e)
+				if !isK {
+					return
+				}
+				consts[k] = phi.Block().Preds[i2]
+			}
+			if len(consts) != 2 || consts[4] == nil || consts[6] == nil {
+				return
+			}
+			// the test that sends control to the block carrying 6
+			six := consts[6]
+			for x := six; x != nil; x = x.Idom() {
+				ifi, isIf := x.Instrs[len(x.Instrs)-1].(*ssa.If)
+				if !isIf || !(x.Succs[0] == six || x.Succs[0].Dominates(six)) || x == six {
+					continue
+				}
+				cmp, isC := ifi.Cond.(*ssa.BinOp)
+				if !isC {
+					break
+				}
+				and, isA := stripConv(cmp.X).(*ssa.BinOp)
+				if !isA || and.Op != token.AND {
+					break
+				}
+				m, isM := constInt(and.Y)
+				if !isM {
+					break
+				}
+				n++
+				r.Check(m == 0x04, "C06.15", c.Name(fn)+"#six-byte-message-header-under-bit-2", c.InstrPos(and), fmt.Sprintf("the message header length is chosen by flags & %#x", m))
+				break
+			}
+		})
+		if n == 0 {
+			r.Undec("C06.15", c.Name(fn)+"#six-byte-message-header-under-bit-2", c.Pos(fn.Pos()), "the choice between 4 and 6 bytes was not recognised")
+		}
+	})
+}
